@@ -262,6 +262,64 @@ def tmi_range_eval(code, d1, d2):
     return rmin, rmax, sc
 
 
+def mi_worker_source():
+    """the statements of `MutualInfoClimateNetwork._cython_calculate_mutual_information` up to (not
+    including) the kernel call, and `Data.normalize_time_series_array`, read out of the current
+    source and compiled one by one; None when they cannot be read (round 5c)"""
+    import ast
+    try:
+        base = os.path.join(common.REPO, "src", "pyunicorn")
+
+        def meth(rel, cls, name):
+            tree = ast.parse(open(os.path.join(base, rel)).read())
+            for n in tree.body:
+                if isinstance(n, ast.ClassDef) and n.name == cls:
+                    for f in n.body:
+                        if isinstance(f, ast.FunctionDef) and f.name == name:
+                            return f
+            raise KeyError(name)
+        g = meth("core/data.py", "Data", "normalize_time_series_array")
+        g.decorator_list = []
+        gm = ast.Module(body=[g], type_ignores=[])
+        ast.fix_missing_locations(gm)
+        f = meth("climate/mutual_info.py", "MutualInfoClimateNetwork",
+                 "_cython_calculate_mutual_information")
+        stmts = []
+        for st in f.body:
+            if isinstance(st, ast.Expr) and isinstance(st.value, ast.Constant):
+                continue
+            if isinstance(st, ast.Assign) and any(isinstance(x, ast.Name) and x.id == "mi"
+                                                  for x in st.targets):
+                break
+            m = ast.Module(body=[st], type_ignores=[])
+            ast.fix_missing_locations(m)
+            tgt = [x.id for x in getattr(st, "targets", []) if isinstance(x, ast.Name)]
+            stmts.append((tgt, compile(m, "<worker>", "exec")))
+        return compile(gm, "<normalize>", "exec"), stmts
+    except Exception:  # noqa
+        return None
+
+
+def mi_worker_eval(code, an):
+    """run those statements with NumPy on `an`: the array that reaches `to_cy`, range_min, range_max,
+    scaling (None: ZeroDivisionError at the assignment of `scaling`)"""
+    import types
+    genv = {"np": np}
+    exec(code[0], genv)
+    data = types.SimpleNamespace(normalize_time_series_array=genv["normalize_time_series_array"])
+    env = {"np": np, "self": types.SimpleNamespace(silence_level=3, data=data), "anomaly": an,
+           "n_bins": 32, "print": lambda *a, **k: None}
+    with np.errstate(all="ignore"):
+        for tgt, st in code[1]:
+            try:
+                exec(st, env)
+            except ZeroDivisionError:
+                if tgt != ["scaling"]:
+                    raise
+                env["scaling"] = None
+    return env["anomaly"], env["range_min"], env["range_max"], env["scaling"]
+
+
 def enc_xdata(M):
     M = np.asarray(M)
     if M.size == 0:
@@ -691,6 +749,107 @@ def run(ctx):
                                           "inf" if rmin == P else "finite") +
                       ":scaling=" + ("zerodiv" if sc is None else "nan" if sc != sc else
                                      "0" if sc == 0 else "finite"))
+    # round 5c: the climate worker on IEEE data — the caller's (time, nodes) anomaly with +-inf / NaN
+    # / constant / tiny / huge columns goes to `call mix` (normalisation, transposition, range and
+    # kernel inside the Lean model, all statements generated) and, under ASan, to
+    # `calculate_similarity_measure` / `_cython_calculate_mutual_information`; the normalised array,
+    # range and scaling — the source's own statements run by NumPy — against `range mix`, exactly
+    msrc = mi_worker_source()
+    mlean, mimpl = [], []
+    mkinds = ["two-valued", "inf-col", "ninf-col", "both-inf-col", "nan-col", "all-inf", "all-nan",
+              "const-col", "general", "tiny", "huge", "inf+nan", "all-const", "inf-all-cols", "two-valued"]
+    mshapes = [(2, 2), (4, 3), (1, 3), (2, 1), (3, 2), (8, 2), (4, 1), (5, 3), (0, 2), (2, 0), (2, 5)]
+    F32BIG = str(int(Fraction(float(np.finfo(np.float32).max))))
+    for c in range(30 if quick else 150):
+        kind = mkinds[c % len(mkinds)]
+        T, m = mshapes[(c // 3) % len(mshapes)] if c < 3 * len(mshapes) else \
+            (rng.choice([1, 2, 2, 3, 4, 4, 6, 8]), rng.randrange(1, 6))
+        dt = fdt()
+        P, M_ = float("inf"), float("-inf")
+        pw = rng.choice([0, 0, 1, -3, 10])
+        if kind == "tiny":          # squares underflow to 0: x / 0 = +-inf reaches the kernel
+            pw = -600 if dt == "float64" else -100
+        elif kind == "huge":        # squares overflow: x / inf = 0 everywhere, ZeroDivisionError
+            pw = 600 if dt == "float64" else 100
+        an = np.zeros((T, m))
+        for j in range(m):
+            cj = rng.choice([0.0, 1.0, -3.0, 5.0]) * 2.0 ** pw
+            aj = rng.choice([1.0, 2.0, 3.0, 0.5]) * 2.0 ** pw
+            if kind == "general":
+                an[:, j] = nprng.randint(-8, 9, size=T) / 4.0
+            elif T % 2 == 0:
+                sg = [1.0] * (T // 2) + [-1.0] * (T // 2)
+                rng.shuffle(sg)
+                an[:, j] = cj + aj * np.array(sg)
+            else:
+                an[:, j] = cj + aj * nprng.randint(-1, 2, size=T)
+        sqmode = "zero" if kind == "tiny" else "inf" if kind == "huge" else "exact"
+        if an.size:
+            pick = lambda: (rng.randrange(T), rng.randrange(m))  # noqa
+            if kind == "inf-col":
+                an[pick()] = P
+            elif kind == "ninf-col":
+                an[pick()] = M_
+            elif kind == "both-inf-col":
+                j = rng.randrange(m)
+                an[T - 1, j] = P
+                an[0, j] = M_          # (one sample: -inf only)
+            elif kind == "nan-col":
+                an[pick()] = np.nan
+            elif kind == "all-inf":
+                an[:] = rng.choice([P, M_])
+            elif kind == "all-nan":
+                an[:] = np.nan
+            elif kind == "const-col":
+                an[:, rng.randrange(m)] = 0.75
+            elif kind == "inf+nan":
+                an[pick()] = rng.choice([P, M_])
+                an[pick()] = np.nan
+            elif kind == "all-const":
+                an[:] = 2.5
+            elif kind == "inf-all-cols":
+                for j in range(m):
+                    an[rng.randrange(T), j] = rng.choice([P, M_])
+        nb = None if c % 4 else rng.choice([1, 2, 5, 64, -1, 2 ** 31])
+        cls = ("default-n_bins" if nb is None else "n_bins<0" if nb < 0 else
+               "n_bins>=2^31" if nb >= 2 ** 31 else "non-default-n_bins") + ":ieee:" + kind
+        lean = f"call mix {T} {m} {32 if nb is None else nb} {F32BIG} {sqmode} {enc_xdata(an)}"
+        lay = rng.choice([{}, {}, {"order": "F"}, {"stride2": True}])
+        add_api("mi", lean, [SX(an, dt, **lay)], [] if nb is None else [nb], cls,
+                (T, m, nb, kind, dt, an.tobytes().hex()), an.size > 0,
+                {"entry": "MutualInfoClimateNetwork.calculate_similarity_measure" if nb is None else
+                 "MutualInfoClimateNetwork._cython_calculate_mutual_information", "anomaly": [T, m],
+                 "data": "IEEE: " + kind, "dtype": dt} if c < 15 else None)
+        if an.size == 0:
+            continue
+        rq = f"range mix {T} {m} {sqmode} {enc_xdata(an)}"
+        if msrc is None:
+            mlean.append(rq)
+            mimpl.append("source-unreadable")
+            continue
+        try:
+            d_, rmin, rmax, sc = mi_worker_eval(msrc, np.array(an, dtype=dt))
+        except Exception as e:  # noqa
+            mlean.append(rq)
+            mimpl.append("source-raises:" + type(e).__name__)
+            continue
+        vals = set(float(v) for v in np.asarray(d_, dtype=float).ravel())
+        if not vals <= {0.0, 1.0, -1.0, P, M_}:
+            ctx.count("mi-range-tie:skipped-irrational-sqrt")
+            continue
+        if sc is not None and np.isfinite(sc) and sc != 0 and \
+                Fraction(float(sc)) != 1 / (Fraction(float(rmax)) - Fraction(float(rmin))):
+            ctx.count("mi-range-tie:skipped-inexact-reciprocal")
+            continue
+        mlean.append(rq)
+        mimpl.append(f"exact {enc_xdata(d_)} {enc_x(rmin)} {enc_x(rmax)} " +
+                     ("zerodiv" if sc is None else enc_x(sc)))
+        ctx.case(("mi-range", dt, an.tobytes().hex()), True,
+                 {"range of": "_cython_calculate_mutual_information", "data": kind, "dtype": dt,
+                  "normalised": enc_xdata(d_), "range_min": enc_x(rmin), "range_max": enc_x(rmax),
+                  "scaling": "zerodiv" if sc is None else enc_x(sc)} if len(mlean) <= 6 else None)
+        ctx.count("mi-range-tie:" + kind + ":scaling=" + ("zerodiv" if sc is None else
+                                                           "0" if sc == 0 else "finite"))
     # caller arrays whose shape DIFFERS from the object's own, on real objects: every public method
     # that forwards a caller-supplied array to a raw-pointer routine (the sizes handed to the C
     # routine must be those of the array, not of the object)
@@ -884,6 +1043,11 @@ def run(ctx):
                    "expressions evaluated by NumPy on IEEE data == NaN-propagating folds of the Lean "
                    "wrapper model (generated range terms)", rlean, rimpl)
     ctx.extra["range_ties"] = len(rlean)
+    ctx.correspond("normalised array / range_min / range_max / scaling of "
+                   "_cython_calculate_mutual_information: the source's own statements (with "
+                   "Data.normalize_time_series_array) run by NumPy on IEEE data == the Lean worker "
+                   "model miRangeX (generated statements)", mlean, mimpl)
+    ctx.extra["mi_range_ties"] = len(mlean)
     kimpl = []
     for q, valid in zip(kreqs, kvalid):
         r = ares[q["id"]]
